@@ -1,5 +1,9 @@
-"""Per-property configuration of the checks (see DESIGN.md section 6)."""
+"""Per-property configuration of the checks: one file per property in lib/props.d/<id>.py
+defining PROP = {...} (counts per tier, rule, assumptions, partial, optional model_input / extra /
+trusted_base / timeout / shard)."""
+import os
 
+<<<<<<< HEAD
 PROPS = {
     "C09": {
         "counts": {"quick": 160, "thorough": 6000},
@@ -97,3 +101,13 @@ PROPS = {
                    "real interleavings are sampled.",
     },
 }
+=======
+PROPS = {}
+_d = os.path.join(os.path.dirname(os.path.abspath(__file__)), "props.d")
+for _fn in sorted(os.listdir(_d)):
+    if _fn.endswith(".py"):
+        _g = {}
+        with open(os.path.join(_d, _fn)) as _f:
+            exec(compile(_f.read(), _fn, "exec"), _g)
+        PROPS[_fn[:-3]] = _g["PROP"]
+>>>>>>> main
